@@ -64,6 +64,9 @@ def config_strategy():
             "trail": st.integers(0, 200),
             "container": st.sampled_from(["raw", "raw", "pe", "xorpe"]),
             "fault": st.sampled_from([None, None, "config_byte", "checksum_plus", "checksum_minus", "guard_key"]),
+            # 12-byte look-alikes of the config/guard boundary elsewhere in the payload (the marker relation holds by chance
+            # in real files too): they must not disturb what is reported for the real protected area
+            "decoys": st.one_of(st.just([]), st.just([]), st.lists(st.tuples(st.sampled_from(["before", "after"]), st.integers(0, 10**6), st.integers(0, 3), st.binary(min_size=6, max_size=6)), min_size=1, max_size=2)),
             "fault_pos": st.integers(0, 4095),
             "fault_xor": st.integers(1, 255),
         }
@@ -126,6 +129,19 @@ def execute(case, stats):
     filler = bytes([0x41]) * case["offset"]
     trail = rnd.randbytes(case["trail"])
     container = case["container"]
+    ndecoys = 0
+    starts = [b"\x00\x05\x00\x01\x00\x02", b"\x00\x06\x00\x01\x00\x02", b"\x00\x07\x00\x01\x00\x02", b"\x00\x08\x00\x02\x00\x04"]
+    for where, pos, opt, a6 in case.get("decoys") or []:
+        blob = bytes(a6) + bytes(x ^ y ^ 0x8A for x, y in zip(bytes(a6)[::-1], starts[opt]))
+        if where == "before" and len(filler) >= 6200 and container == "raw":
+            p = 6140 + pos % (len(filler) - 6140 - 12)
+            filler = filler[:p] + blob + filler[p + 12 :]
+            ndecoys += 1
+        elif where == "after":
+            trail = trail + bytes(40)
+            p = 14 + pos % (len(trail) - 26)
+            trail = trail[:p] + blob + trail[p + 12 :]
+            ndecoys += 1
     if container == "raw":
         view = filler + area + trail
         data = view
@@ -185,7 +201,7 @@ def execute(case, stats):
     stats.note(
         case,
         (K != 15 and len(options) >= 2) or fault is not None,
-        classes=["marker_near_8k_boundary" if (off + G.CONFIG_SIZE) % 8192 < 16 or (off + G.CONFIG_SIZE) % 8192 > 8176 else "marker_elsewhere", "keylen_%s" % ("2-8" if K <= 8 else "9-32" if K <= 32 else "33-128" if K <= 128 else "129-256"), "container_" + container, "key_" + shape[0], "fault_" + str(fault), "options%d" % len(options), "first_option_%d" % options[0][0]],
+        classes=["marker_near_8k_boundary" if (off + G.CONFIG_SIZE) % 8192 < 16 or (off + G.CONFIG_SIZE) % 8192 > 8176 else "marker_elsewhere", "keylen_%s" % ("2-8" if K <= 8 else "9-32" if K <= 32 else "33-128" if K <= 128 else "129-256"), "container_" + container, "decoy_markers_%d" % ndecoys, "key_" + shape[0], "fault_" + str(fault), "options%d" % len(options), "first_option_%d" % options[0][0]],
     )
 
 
